@@ -15,6 +15,16 @@ T = TypeVar("T")
 __all__ = ["HookFunction", "HookHost", "Hook", "root_hooks"]
 
 
+def _all_finite(value) -> bool:
+    """Whether a value is free of infinite or nan numbers (non-numeric values count as finite)."""
+    try:
+        return bool(np.isfinite(value).all())
+    except TypeError:
+        return True  # only numeric types can be tested for finiteness, for others it is meaningless
+    except ValueError:
+        return all(_all_finite(v) for v in value)  # ragged sequence: test the elements
+
+
 class HookFunction:
     """
     Class wrapping a function used to yield the value of hooks.
@@ -223,11 +233,8 @@ class Hook(Generic[T]):
         if result is None:
             raise AttributeError(f"Hook call for '{self.name}' on '{instance}' could not provide a value.")
 
-        try:
-            if not np.isfinite(result).all():
-                raise ValueError(f"Hook call for '{self.name}' on '{instance}' resulted in an infinite value.")
-        except TypeError:
-            pass  # only numeric types can be tested for finiteness, for others it is meaningless
+        if not _all_finite(result):
+            raise ValueError(f"Hook call for '{self.name}' on '{instance}' resulted in an infinite value.")
 
         instance.__cache__[self.name] = result
 
